@@ -4,7 +4,8 @@ from fractions import Fraction
 from math import factorial
 
 from ..model import AnalysisError
-from ..lib import FV, decode_new, decode_call, phi_members, is_sym, is_const, is_str, strip_stores, stores_of, tuple_consts
+from ..lib import (FV, decode_new, decode_call, phi_members, is_sym, is_const, is_str, strip_stores, stores_of, tuple_consts,
+                   find_assign, find_assigns, simple_assigns, local_term)
 from ..cfg import always_raises, walk_stmts
 from . import common as cm
 from . import geom
@@ -337,15 +338,13 @@ def d5_field_diff(chk, repo):
     ok, det = v.guard("order not in (1, 2)", exc=("NotImplementedError",), before=v.body[1] if len(v.body) > 1 else "exit")
     chk.ob("field.Field.diff::order-refused", ok and isinstance(first, ast.If), "C04.D5", det, v.f)
     # the working field
-    fterm = None
-    for st in v.stmts():
-        if isinstance(st, ast.Assign) and len(st.targets) == 1 and isinstance(st.targets[0], ast.Name) and st.targets[0].id == "field":
-            pass
     loops = [s for s in v.stmts() if isinstance(s, ast.For)]
     chk.require(len(loops) == 2, "Field.diff: expected the line loop and the component loop")
     outer, inner = loops
-    W = v.ev.term(ast.Name(id="field", ctx=ast.Load()), at=outer) if "field" in v.ev._local_names else None
-    chk.require(W is not None, "Field.diff: working field variable vanished")
+    # the working field: the variable that is bound to self.pad(...) in a periodic direction (found by its value)
+    wf = find_assign(v, lambda t, s: (decode_call(v.ctx, t) or ("",))[0] == "Field.pad")
+    chk.require(wf is not None, "Field.diff: no variable is bound to self.pad(...)")
+    W = local_term(v, wf[1], outer)
     mem = phi_members(v.ctx, W)
     padded = v.spec("self.pad({direction: (1, 1)}, mode='wrap')")
     okw = len(mem) == 2 and any(v.eq(m_, padded) for m_ in mem) and any(is_sym(v.ctx, m_, "self") for m_ in mem)
